@@ -7,6 +7,12 @@
 // The escaped expression is not only a variable: shapes.go adds compound operands whose parts carry
 // filters of their own (filter evaluation is re-entrant), in every position.
 //
+// An apply block escapes everything its body produces: bodies.go puts the block around every kind of
+// direct child (text, print of a variable, of a macro call, of a function call, if / for / set /
+// include / nested apply / block), alone and in every mixture of two and three. Macro text is resolved
+// reference after reference: mtext.go renders text nodes that refer to the same variable several
+// times with different filters.
+//
 // Bounded-exhaustive enumeration of input strings (every code point, every byte string of length
 // <= 2, every string of length <= 5/6 over a 10-symbol alphabet of significant / multi-byte /
 // invalid bytes, every pair and triple of already-escaped forms, long strings, non-string values)
@@ -20,7 +26,6 @@ import (
 	"bytes"
 	"errors"
 	"fmt"
-	"os"
 	"sort"
 	"strconv"
 	"strings"
@@ -448,6 +453,9 @@ func runMulti(en *env, ms []multi, onlyCore bool, seq int64, v [3]interface{}, w
 			if !allRotations && (onlyCore || !m.both) && int64(rot) != seq%2 {
 				continue
 			}
+			if len(want[2]) > 4096 {
+				tick()
+			}
 			parts, err := m.run(en, rot, v)
 			*renders++
 			names := multiNames(rot)
@@ -529,6 +537,10 @@ func features(s string, set map[string]bool) {
 	}
 }
 
+// tick tells the framework that the worker is alive (set to t.Progress in Run): long inputs (1 MiB
+// strings through every route) take long enough on an overloaded machine to trip the hang guard
+var tick = func() {}
+
 func runBlock(b block, routes []route, multis []multi) *vlib.Outcome {
 	en := newEnv()
 	o := &vlib.Outcome{Counters: map[string]int64{}}
@@ -551,6 +563,9 @@ func runBlock(b block, routes []route, multis []multi) *vlib.Outcome {
 				continue
 			}
 			var outs [2]string
+			if len(in) > 4096 {
+				tick()
+			}
 			for k, f := range filterNames {
 				out, err := r.run(en, f, in)
 				renders++
@@ -658,7 +673,7 @@ type blockCfg struct {
 	bytesLen int  // 2: every byte string of length <= 2 (256 blocks); 1: the 256 single bytes only (4 blocks)
 	maxRep   int  // boundary lengths up to this repeat count
 	long     bool // the 1 MiB strings
-	refsLen  int  // already-escaped forms: 2 = singles and pairs only; 0 / 3 = singles, pairs and triples
+	refsLen  int  // already-escaped forms: 1 = singles only; 2 = singles and pairs; 0 / 3 = singles, pairs and triples
 	cpEnd    int  // code points below this bound
 	// cpAlone: the code point also alone (otherwise inside a?& only); cpCore: on the core routes only
 	cpAlone, cpCore func(base int) bool
@@ -669,7 +684,13 @@ func blocks(thorough bool) []block {
 	if thorough {
 		L = 6
 	}
-	return buildBlocks(blockCfg{L: L, bytesLen: 2, maxRep: 1 << 20, long: true, cpEnd: 0x110000,
+	// boundary lengths: the three around 64 KiB are run in the thorough tier only (the quick tier has the
+	// growth boundaries up to 4097 and the 1 MiB strings)
+	maxRep := 4097
+	if thorough {
+		maxRep = 1 << 20
+	}
+	return buildBlocks(blockCfg{L: L, bytesLen: 2, maxRep: maxRep, long: true, cpEnd: 0x110000,
 		cpAlone: func(base int) bool { return thorough || base < 0x3000 },
 		cpCore:  func(base int) bool { return !thorough && base >= 0x3000 }})
 }
@@ -707,10 +728,13 @@ func buildBlocks(cfg blockCfg) []block {
 		bs = append(bs, block{family: "refs", key: fmt.Sprintf("2-refs/%02d", i), gen: func(f func(string)) {
 			f(refAlphabet[i])
 			for _, y := range refAlphabet {
+				if cfg.refsLen == 1 {
+					break
+				}
 				f(refAlphabet[i] + y)
 			}
 			for _, y := range refAlphabet {
-				if cfg.refsLen == 2 {
+				if cfg.refsLen == 2 || cfg.refsLen == 1 {
 					break
 				}
 				for _, z := range refAlphabet {
@@ -721,7 +745,7 @@ func buildBlocks(cfg blockCfg) []block {
 	}
 	// 4. every string of length <= L over the alphabet, blocks of 111 strings
 	L := cfg.L
-	P := L - 2 // blocks are keyed by a prefix of P symbols and hold the 111 strings of length P..L with that prefix
+	P := L - 2  // blocks are keyed by a prefix of P symbols and hold the 111 strings of length P..L with that prefix
 	if P >= 2 { // the strings shorter than the block prefix (none when P < 2)
 		bs = append(bs, block{family: "alpha", key: fmt.Sprintf("3-alpha/0-len<%d", P), gen: func(f func(string)) {
 			level := []string{""}
@@ -946,25 +970,35 @@ func main() {
 		ID:    "C07",
 		Level: "exploration",
 		Rule: "every input of the bounded families (all code points alone and inside a?&, all byte strings of length <= 2, all strings of length <= 5 (thorough 6) over " +
-			"{< > & \" ' a é 0xFF ; #}, all pairs and triples of 23 already-escaped forms and fragments, boundary lengths up to 64 KiB, 1 MiB strings, 21 non-string values) " +
+			"{< > & \" ' a é 0xFF ; #}, all pairs and triples of 23 already-escaped forms and fragments, boundary lengths up to 4097 repeats (thorough 64 KiB), 1 MiB strings, 21 non-string values) " +
 			"x every route (16 template positions, direct ApplyFilter with the engine's / an empty / no environment, macro text with and without environment) x both names; " +
 			"every verified result is kept and verified again after the escapes of the next two inputs have run; every window of three consecutive inputs of a block also goes through 11 multi-value routes " +
 			"that hold two or three escaped values (set variables, concatenation operands, a macro's set variables, collected ApplyFilter results; registered filter and built-in fallback) before any is looked at; " +
 			"operand shapes (cases 7-shape/...): escape / e applied to 17 compound operands whose parts carry filters of their own (parenthesised concatenation, conditional, array / hash element, " +
 			"after a filter whose argument is itself a filter chain, nested two deep) x 5 positions (print, set, apply block, print inside an apply block, macro body) x both names, for the specials, single bytes (thorough: all byte strings of length <= 2), " +
 			"all pairs and triples of already-escaped forms, all alphabet strings of length <= 4 (thorough 5), boundary lengths, code points below U+0800 (thorough: all) inside a?&, and the non-string values (on the 7 shapes that select the value unchanged); " +
-			"a case is one block of inputs (<= 553 strings) on a fresh engine; non-trivial = the block contains a significant character or a byte >= 0x80",
+			"apply-block bodies (cases 8-applybody/...): {% apply escape %} / {% apply e %} around a body built from 16 kinds of direct child (text, print of a variable / a filtered variable, print of a macro call - local, _self, import, from -, " +
+			"print of a function call, if, for, set, include, nested apply around a macro call, nested apply raw, block, spaceless) alone in 7 placements of the block (top level, block of an extending template incl. parent(), macro body, for, if, inside another apply, between text) plus 9 further single kinds, " +
+			"every mixture of two children (256) and of three children (4096); the block's output must be the escaped form of what the same body renders without the block (twin template, same engine), both names identical; " +
+			"macro text with several references (cases 9-macrotext/...): one text node of an API-built macro holding every sequence of 1..3 references over {p, p|e, p|escape, p|length, p|upper, q, q|e} (environment) / {p, p|e, p|escape, q, q|escape} (no environment) " +
+			"that contains an escape, in 3 separator styles (blank, adjacent and without blanks, inside markup): every e / escape reference must be the escaped form of its variable's text and every other reference must render what it renders alone; " +
+			"a case is one block of inputs (<= 553 strings) on a fresh engine; non-trivial = the block contains a significant character or a byte >= 0x80 (apply bodies: the unescaped body does)",
 		Assumptions: []string{
 			"strings longer than 1 MiB + 5 bytes and alphabet strings longer than the bound are not explored",
 			"in the quick tier code points >= U+3000 are swept inside a?& only (not alone) and on one route per escaping mechanism only (print tag = registered filter, ApplyFilter without environment = built-in fallback, macro text with and without environment); the thorough tier sweeps them on all routes",
 			"the text a non-string value is converted to is taken from the statement for scalars, Stringers, byte slices and named strings, and from the unfiltered print tag of the same engine for lists, maps, structs and errors",
 			"input reaches the filter as a context value; string literals written in template source are the subject of C08/C04",
 			"operand shapes: the text that reaches the escape is known by construction (the input is only concatenated with constants, selected by a condition / an index, or passed through default(v) / replace(k, k)); the operand's own filters (trim, lower, upper, default, replace) act on the constants \" x \" and \"Ab\" and are trusted to give x / ab / AB; shapes are not run on the environment-less fallback (it has no filter but escape) nor in macro text; quick tier: shorter bounds than the plain routes (alphabet length 4, single bytes, code points < U+0800, repeats <= 4097)",
+			"apply-block bodies: the expected text is what the body renders without the block on the same engine (the children themselves - macros, include, for, parent() - are trusted); inputs are the short ones of every family (quick: specials, single bytes, the 23 already-escaped forms, alphabet length <= 2, repeats <= 65, code points < U+0100; mixtures of two on the specials, bytes, alphabet strings and non-string values, of three on the specials only; thorough: alphabet length <= 3, pairs of already-escaped forms, repeats <= 4097, code points < U+0800, mixtures of two everywhere, of three also on the bytes and non-string values); macros are not called in the block of an extending template (this twig does not see the template's macros there)",
+			"macro text with several references: a reference without e / escape is compared with the same reference alone in a text node (what upper / length do is not examined); texts with a reference that is an error alone (length of a number) are left out for that value; filter chains and arguments inside macro text are not generated; inputs: quick specials, single bytes, the 23 already-escaped forms, alphabet length <= 2, repeats <= 257, code points < U+0100; thorough alphabet length <= 4, pairs and triples of already-escaped forms, all boundary lengths, code points < U+3000",
+			"boundary lengths around 64 KiB are run in the thorough tier only (quick: up to 4097 repeats, and the 1 MiB strings)",
 			"held results: only windows of consecutive inputs of the enumeration order are held together (not all pairs); in the quick tier the template forms of the registered filter and the code point blocks >= U+3000 run one of the two name rotations per window, alternating; results longer than 16 KiB are kept for later re-verification on the direct routes only",
 		},
 		QuickDeadline:    150,
 		ThoroughDeadline: 1200,
 		Run: func(t *vlib.T) {
+			tc := t.Case
+			tick = t.Progress
 			// routes that carry an open finding form their own cases, so that the (re-run) cost of a
 			// tolerated deviation is not paid for the other routes
 			var main, side []route
@@ -977,43 +1011,54 @@ func main() {
 			}
 			multis := allMultis()
 			allRotations = t.Thorough()
-			for _, b := range blocks(t.Thorough()) {
-				b := b
-				t.Case(b.key, func() *vlib.Outcome { return runBlock(b, main, multis) })
-				t.Case(b.key+"#"+side[0].name, func() *vlib.Outcome { return runBlock(b, side, nil) })
+			// order: the structured dimensions first, the two code point sweeps (by far the largest and the most
+			// uniform families) last, so that a run cut short by the deadline has seen every dimension
+			plain := func(cp bool) {
+				for _, b := range blocks(t.Thorough()) {
+					b := b
+					if (b.family == "codepoint") != cp {
+						continue
+					}
+					tc(b.key, func() *vlib.Outcome { return runBlock(b, main, multis) })
+					tc(b.key+"#"+side[0].name, func() *vlib.Outcome { return runBlock(b, side, nil) })
+				}
 			}
+			plain(false)
 			for _, nv := range nonStrings() {
 				nv := nv
-				t.Case("0-nonstring/"+nv.name, func() *vlib.Outcome { return runNonString(nv, main, multis) })
-				t.Case("0-nonstring/"+nv.name+"#"+side[0].name, func() *vlib.Outcome { return runNonString(nv, side, nil) })
+				tc("0-nonstring/"+nv.name, func() *vlib.Outcome { return runNonString(nv, main, multis) })
+				tc("0-nonstring/"+nv.name+"#"+side[0].name, func() *vlib.Outcome { return runNonString(nv, side, nil) })
 			}
 			// operand shapes (shapes.go): the escaped expression is a compound expression whose parts
 			// carry filters of their own
 			for _, nv := range nonStrings() {
 				nv := nv
-				t.Case("7-shape/0-nonstring/"+nv.name, func() *vlib.Outcome { return runShapeNonString(nv) })
+				tc("7-shape/0-nonstring/"+nv.name, func() *vlib.Outcome { return runShapeNonString(nv) })
 			}
-			for _, b := range shapeBlocks(t.Thorough()) {
-				b := b
-				t.Case("7-shape/"+b.key, func() *vlib.Outcome { return runShapeBlock(t, b) })
-			}
-			only := os.Getenv("C07_ONLY") // DEVTMP
-			tc := func(key string, fn func() *vlib.Outcome) {
-				if only == "" || strings.HasPrefix(key, only) {
-					t.Case(key, fn)
+			shaped := func(cp bool) {
+				for _, b := range shapeBlocks(t.Thorough()) {
+					b := b
+					if (b.family == "codepoint") != cp {
+						continue
+					}
+					tc("7-shape/"+b.key, func() *vlib.Outcome { return runShapeBlock(t, b) })
 				}
 			}
+			shaped(false)
 			// apply-block bodies (bodies.go): every kind of direct child, alone and in mixtures of two / three
 			groups := abGroupNames()
 			for g, gname := range groups {
 				g := g
-				tc("8-applybody/0-nonstring/"+gname, func() *vlib.Outcome { return runBodyNonStrings(t, g) })
+				tc("8-applybody/0-nonstring/"+gname, func() *vlib.Outcome { return runBodyNonStrings(t, g, t.Thorough()) })
 			}
 			for _, b := range bodyBlocks(t.Thorough()) {
 				b := b
 				triples := bodyTriples(b, t.Thorough())
 				for g, gname := range groups {
 					g := g
+					if g > 0 && !bodyPairs(b, t.Thorough()) {
+						break
+					}
 					tc("8-applybody/"+b.key+"/"+gname, func() *vlib.Outcome { return runBodyBlock(t, b, g, triples) })
 				}
 			}
@@ -1021,11 +1066,7 @@ func main() {
 			var sets []*mtSet
 			set := func(i int) *mtSet {
 				if sets == nil {
-					n := 3
-					if t.Thorough() {
-						n = 4
-					}
-					sets = mtSets(n)
+					sets = mtSets(3)
 				}
 				return sets[i]
 			}
@@ -1040,6 +1081,8 @@ func main() {
 					tc("9-macrotext/"+b.key+"/"+sname, func() *vlib.Outcome { return runMacroTextBlock(t, b, set(i)) })
 				}
 			}
+			plain(true)
+			shaped(true)
 		},
 		Extra: func(tier string, cov map[string]interface{}) {
 			cov["routes"] = len(allRoutes())
@@ -1047,6 +1090,12 @@ func main() {
 			cov["operand_shapes"] = len(shapes)
 			cov["shape_positions"] = len(shapePositions)
 			cov["filter_names"] = filterNames
+			cov["apply_body_child_kinds"] = len(abChildren)
+			cov["apply_body_single_only_kinds"] = len(abExtraChildren)
+			cov["apply_body_placements"] = len(abPlacements)
+			cov["macro_text_separator_styles"] = len(mtStyles)
+			cov["macro_text_texts_env"] = len(mtSeqs(mtRefsEnv, 3)) * len(mtStyles)
+			cov["macro_text_texts_noenv"] = len(mtSeqs(mtRefsNoEnv, 3)) * len(mtStyles)
 		},
 	})
 }
